@@ -40,6 +40,14 @@ var c16Quoted = []struct{ name, sql string }{
 	{"line-comment", "SELECT /* x */ $1 AS v -- $1\n FROM dual"},
 	{"hash-comment", "SELECT $1 AS v # $1\n FROM dual"},
 	{"block-comment", "SELECT /* $1 */ $1 AS v FROM dual"},
+	// a placeholder directly followed by a comment introducer or a quote (no blank in between)
+	{"adjacent-block-comment", "SELECT $1/* $1 */ AS v FROM dual"},
+	{"adjacent-line-comment", "SELECT $1-- $1\n AS v FROM dual"},
+	{"adjacent-hash-comment", "SELECT $1# $1\n AS v FROM dual"},
+	{"adjacent-backtick", "SELECT $1`$1` FROM dual"},
+	// a string literal directly behind a word that ends in e / E (no blank): still an ordinary MySQL literal
+	{"literal-glued-to-word", "SELECT 'x' LIKE'o\\'$1' AS q, $1 AS v FROM dual"},
+	{"literal-glued-to-else", "SELECT CASE WHEN 1 = 2 THEN 'a' ELSE'b\\'$1' END AS q, $1 AS v FROM dual"},
 	// a backslash is an ordinary character between backticks: the identifier ends at the next backtick
 	{"backtick-ending-in-backslash", "SELECT `k\\` AS a, `$1` AS q, $1 AS v FROM dual"},
 	{"backtick-ending-in-backslash-then-literal", "SELECT a AS `k\\`, '$1' AS q, $1 AS v FROM dual"},
@@ -330,6 +338,9 @@ func (p *c16) checkQuoted(r *core.CaseResult, qi int) {
 		if strings.Contains(q.name, "comment") {
 			live = strings.Index(q.sql, "$1 AS v")
 		}
+		if strings.HasPrefix(q.name, "adjacent") {
+			live = strings.Index(q.sql, "$1")
+		}
 		ref := q.sql[:live] + "'ZZP1ZZ'" + q.sql[live+2:]
 		wantMask, wantLits, rerr := maskAndLiterals(ref)
 		if rerr != nil {
@@ -496,7 +507,7 @@ func (p *c16) checkSequences(r *core.CaseResult) {
 
 func (p *c16) Meta() core.Meta {
 	return core.Meta{
-		Rule:        "string arguments: for each of 6 templates (echo, WHERE =, WHERE = AND, IN list with 2 placeholders, two select items, function arguments) every string of length 1..3 (thorough 4) over the 18-symbol alphabet {a ' \\ \" ` - # / * ; space NUL newline % $ 1 é and the lone byte 0xE9 (ill-formed UTF-8)} plus classic injection payloads: sanitized text must parse, have the template's statement shape with one string literal per placeholder whose value is the argument, and return through Exec exactly the rows a literal comparison selects; int64/float64/bool/NULL boundary values echo; 11 quoted contexts ($1 inside '...', '...''...', '...\\'...', \"...\", `...`, --, #, /* */, and behind a backtick / double-quoted identifier that ends in a backslash) leave the quoted $1 alone; missing / unused / $0 / overflow / unsupported-type arguments are errors, not panics; every rejected call followed by every accepted call leaves the accepted call's output unchanged (5 x 5 sequences, 3 rounds); Commands prepared with NewQuery keep their template while other templates are parsed and sanitized (every ordered pair, each used twice). non-trivial = the argument contains a character that is special in the dialect",
+		Rule:        "string arguments: for each of 6 templates (echo, WHERE =, WHERE = AND, IN list with 2 placeholders, two select items, function arguments) every string of length 1..3 (thorough 4) over the 18-symbol alphabet {a ' \\ \" ` - # / * ; space NUL newline % $ 1 é and the lone byte 0xE9 (ill-formed UTF-8)} plus classic injection payloads: sanitized text must parse, have the template's statement shape with one string literal per placeholder whose value is the argument, and return through Exec exactly the rows a literal comparison selects; int64/float64/bool/NULL boundary values echo; 17 quoted contexts ($1 inside '...', '...''...', '...\\'...', \"...\", `...`, --, #, /* */, behind a backtick / double-quoted identifier that ends in a backslash, directly behind a live placeholder, in a literal glued to a word ending in e) leave the quoted $1 alone; missing / unused / $0 / overflow / unsupported-type arguments are errors, not panics; every rejected call followed by every accepted call leaves the accepted call's output unchanged (5 x 5 sequences, 3 rounds); Commands prepared with NewQuery keep their template while other templates are parsed and sanitized (every ordered pair, each used twice). non-trivial = the argument contains a character that is special in the dialect",
 		Assumptions: []string{"the dialect is the one genql.Parse accepts (MySQL: backslash escapes in string literals, backtick identifiers, double-quoted strings, # and -- comments)", "statement shape = sqlparser.String of the statement with every literal masked"},
 		Bounds:      map[string]any{"alphabet": len(p.alpha), "max_len": p.maxLen, "templates": len(c16Templates), "quoted_contexts": len(c16Quoted)},
 		Exhaustive:  true,
